@@ -169,6 +169,7 @@ type summary struct {
 	Infra       []string         `json:"infra"`
 	CleanCases  int64            `json:"clean_cases"`
 	HashesTotal int              `json:"hashes_total"`
+	PreSites    []int32          `json:"pre_sites,omitempty"`
 }
 
 type violationRec struct {
@@ -313,6 +314,7 @@ func RunShard(t *testing.T) {
 done:
 	sum.Next = idx
 	simAgg.mergeInto(sum.Stats)
+	sum.PreSites = simAgg.sites()
 	sum.WallMS = time.Since(t0).Milliseconds()
 	sum.HashesTotal = len(hashes)
 	for k := range hashes {
